@@ -216,6 +216,9 @@ type dynAccess struct {
 	Trap    string `json:"trap,omitempty"`
 	Bucket  string `json:"bucket"`
 	Grows   int    `json:"grows_before"` // successful size-changing grows so far in this call
+	// Upper is the upper half of the i64 the base value was wrapped from (base
+	// kinds wrap/wrap_add/wrapped-i64): a correct engine ignores it.
+	Upper uint32 `json:"upper_half_of_i64_source,omitempty"`
 
 	hasOld bool // cmpxchg / wait: value found at the address
 	old    uint64
@@ -243,6 +246,7 @@ type exec struct {
 	m      *mem
 	p      params
 	locals []uint32 // value of var i (for vars that live in a local); params kept in p
+	uppers []uint32 // upper half of the i64 source of var i (wrapped kinds)
 	res    [][2]uint64
 	since  []map[string]bool // per var: events since its last use; nil = never used
 	out    outcome
@@ -287,11 +291,13 @@ func bucketOf(base, off uint32, n, size uint64) string {
 func (t *template) run(m *mem, p params) (out outcome) {
 	e := &exec{t: t, m: m, p: p}
 	e.locals = make([]uint32, len(t.Vars))
+	e.uppers = make([]uint32, len(t.Vars))
 	e.res = make([][2]uint64, len(t.ResTypes))
 	e.since = make([]map[string]bool, len(t.Vars))
 	for i, v := range t.Vars {
-		if !v.Inline && v.Kind != "p0" && v.Kind != "p1" && v.Kind != "const" {
+		if !v.Inline && v.Kind != "p0" && v.Kind != "p1" && v.Kind != "const" && !v.lateDef() {
 			e.locals[i] = e.evalExpr(&t.Vars[i])
+			e.uppers[i] = uint32(e.src64(&t.Vars[i]) >> 32)
 		}
 	}
 	err := e.steps(t.Steps)
@@ -315,8 +321,36 @@ func (t *template) run(m *mem, p params) (out outcome) {
 	return e.out
 }
 
+// src64 is the i64 a wrapped base value is the low half of (0 for other kinds).
+func (e *exec) src64(v *baseVar) uint64 {
+	switch v.Kind {
+	case "wrap":
+		return e.p.P2
+	case "wrap_add":
+		return e.p.P2 + v.K64
+	case "wrapx":
+		switch v.Shape {
+		case "addv":
+			return e.p.P2 + e.p.Val
+		case "val":
+			return e.p.Val
+		case "exts":
+			return uint64(int64(int32(e.p.P0)))
+		case "select":
+			if e.p.Sel&selectBit != 0 {
+				return e.p.P2
+			}
+			return e.p.Val
+		}
+		return e.p.P2 // plain shr0 global call blockparam loopparam tee load(stored value)
+	}
+	return 0
+}
+
 func (e *exec) evalExpr(v *baseVar) uint32 {
 	switch v.Kind {
+	case "wrapx":
+		return uint32(e.src64(v))
 	case "p0":
 		return e.p.P0
 	case "p1":
@@ -335,6 +369,14 @@ func (e *exec) evalExpr(v *baseVar) uint32 {
 		return uint32(e.p.P2 + v.K64)
 	}
 	panic("bad var kind " + v.Kind)
+}
+
+func (e *exec) upperOf(i int) uint32 {
+	v := &e.t.Vars[i]
+	if v.Inline {
+		return uint32(e.src64(v) >> 32)
+	}
+	return e.uppers[i]
 }
 
 func (e *exec) varVal(i int) uint32 {
@@ -406,6 +448,7 @@ func (e *exec) step(s *step) error {
 			e.p.P1 += s.Delta
 		default:
 			e.locals[s.Var] += s.Delta
+			e.uppers[s.Var] = 0 // result of a 32-bit add
 		}
 		if e.since[s.Var] != nil {
 			e.since[s.Var]["bump"] = true
@@ -441,6 +484,9 @@ func (e *exec) step(s *step) error {
 		e.event("join")
 	case "loop":
 		n := 1 + int((e.p.Sel>>s.Bit)&1)
+		if s.N > 0 {
+			n = int(s.N)
+		}
 		for i := 0; i < n; i++ {
 			e.event("loop")
 			if err := e.steps(s.Body); err != nil {
@@ -490,8 +536,11 @@ func sext(v uint64, w uint32) uint64 {
 
 // operand returns the (lo,hi) operand value of a store-like access.
 func (e *exec) operand(s *step, o *memOp) (uint64, uint64) {
-	if s.ValKind == "param" {
+	switch s.ValKind {
+	case "param":
 		return e.p.Val, 0
+	case "p2":
+		return e.p.P2, 0
 	}
 	return s.C1, s.C2
 }
@@ -501,8 +550,14 @@ func (e *exec) access(s *step) error {
 	m := e.m
 	e.out.Progress++ // the generated code counts started accesses in the progress global
 	base := e.varVal(s.Var)
+	if s.TeeDef {
+		v := &e.t.Vars[s.Var]
+		e.locals[s.Var] = e.evalExpr(v)
+		e.uppers[s.Var] = uint32(e.src64(v) >> 32)
+		base = e.locals[s.Var]
+	}
 	d := dynAccess{ID: s.ID, Op: o.Name, Class: o.Class, VarKind: e.t.Vars[s.Var].describe(), Base: base, Off: s.Off,
-		Size: m.size(), Since: e.useVar(s.Var), Grows: e.out.Grows}
+		Size: m.size(), Since: e.useVar(s.Var), Grows: e.out.Grows, Upper: e.upperOf(s.Var)}
 	size := m.size()
 	fail := func(kind string) error {
 		d.Trap = kind
@@ -599,6 +654,10 @@ func (e *exec) access(s *step) error {
 		}
 		if o.T == wenc.I32 || o.T == wenc.F32 {
 			v &= 0xffffffff
+		}
+		if s.Def > 0 { // the loaded i64 is wrapped into base var Def-1
+			e.locals[s.Def-1] = uint32(v)
+			e.uppers[s.Def-1] = uint32(v >> 32)
 		}
 		setRes(v, 0)
 	case clStore:
